@@ -408,6 +408,7 @@ def build(item: dict[str, Any], box: dict[str, Any]) -> Any:
             obs.connect = ("ok", t0, loop.time())
             box["tr"] = tr
             prog = list(item["program"])
+            bgs: list[Any] = []
             consecutive_to = 0
             i = 0
             while True:
@@ -420,6 +421,26 @@ def build(item: dict[str, Any], box: dict[str, Any]) -> Any:
                 i += 1
                 ts = loop.time()
                 try:
+                    if op == "bgread":
+                        # a second task of the client blocks in read() while the program goes on (recorded as a read when it ends)
+                        async def bg(arg: float = arg, ts: float = ts) -> None:
+                            try:
+                                d = await tr.read(timeout=arg)
+                                obs.ops.append(("read", arg, ts, loop.time(), "ok", d))
+                            except TimeoutError:
+                                obs.ops.append(("read", arg, ts, loop.time(), "timeout"))
+                            except OSError as e:
+                                obs.ops.append(("read", arg, ts, loop.time(), "connerr" if isinstance(e, ConnectionError) else "oserror", type(e).__name__))
+                            except Exception as e:  # noqa: BLE001
+                                obs.ops.append(("read", arg, ts, loop.time(), "other", type(e).__name__ + ":" + str(e)[:60]))
+
+                        bgs.append(loop.create_task(bg(), name="bgread"))
+                        await asyncio.sleep(0)  # let it reach its read
+                        continue
+                    if op == "join":
+                        for b in bgs:
+                            await b
+                        continue
                     if op == "sleep":
                         await asyncio.sleep(arg)  # the client is idle: nobody reads, nobody writes
                         obs.ops.append((op, arg, ts, loop.time(), "ok"))
@@ -561,6 +582,13 @@ def _judge1(item: dict[str, Any], obs: Obs, choices: list[int], res: Result, pid
         return
 
     T = proto.ack_timeout
+    diag_times: list[float] = []
+    for tw, chunk in obs.wire:
+        try:
+            if any(k == "diag" for k, _ in proto.parse_wire(chunk)):
+                diag_times.append(tw)
+        except Exception:  # noqa: BLE001  (a chunk that is no whole frame: judged by the wire clauses below)
+            pass
     frames = [f for f in obs.frames if f.kind != "actresp"]
     consumed: set[int] = set()
     closed = False
@@ -577,6 +605,10 @@ def _judge1(item: dict[str, Any], obs: Obs, choices: list[int], res: Result, pid
             continue
         if kind == "write":
             nwrite += 1
+            # the acknowledgement time runs from the moment the message is on the wire (a write may first have to wait for another
+            # task of the client that is blocked in a read: the connection serialises its users)
+            if nwrite <= len(diag_times) and diag_times[nwrite - 1] > ts:
+                ts = diag_times[nwrite - 1]
             deadline = ts + T
         else:
             deadline = ts + arg
